@@ -100,6 +100,8 @@ def _rw(ctx, p_write=0.5, p_fault=0.1, p_uncounted=0.15):
         addr = ctx.fault_addr(width)
     else:
         addr = ctx.aligned_addr(width)
+        if width == 2 and r.random() < 0.15:
+            addr = (addr & ~3) + 1  # half-word inside one word at the odd offset (legal, never word-crossing)
         if r.random() < 0.03:
             addr = r.choice([DATA_MIN, 0xFFFFFFFC, 0xFFFFFFFF - (width - 1)])
             addr -= addr % width
